@@ -49,8 +49,10 @@ Definition spec_txn (e : entry pat) (fm : field_map) (r : row) (t : stxn) : bool
       let hs := hits (csv_matches re_captures) frag0 (e_rewrite e)
                      {| rc_payee := payee0; rc_category := cat; rc_secondary_commodity := sc |} in
       let counter := if d_neg amount then first_post t else last_post t in
-      str_eqb (st_payee t) (match spec_payee hs with Some p => p | None => payee0 end)
-      && ostr_eqb (st_code t) (spec_code hs)
+      (* the transaction carries the text on one line without outer white space (one_line, the
+         C15 repair); the rules themselves see the captured text as it is, e.g. " coop" *)
+      str_eqb (st_payee t) (one_line (match spec_payee hs with Some p => p | None => payee0 end))
+      && ostr_eqb (st_code t) (option_map one_line (spec_code hs))
       && match counter with
          | None => false
          | Some p =>
